@@ -554,15 +554,25 @@ def web_wiring():
             if depth == 0: break
             depth -= 1
         j += 1
+    # simple `let NAME = EXPR;` bindings of `config` before the registration are inlined into the call chain (hoisting an
+    # argument into a local does not change what is registered)
+    lets = {}
+    head = cb[:m.start()]
+    for lm in re.finditer(r'\blet\s+(\w+)\s*=\s*(.*?);', head, re.S):
+        lets[lm.group(1)] = lm.group(2)
+    head = re.sub(r'\blet\s+\w+\s*=\s*.*?;', '', head, flags=re.S)
     chain = []
     for name, arg in chain_calls(cb[start:j]):
+        arg = arg.strip()
+        if arg.endswith(','): arg = arg[:-1]
+        if arg.strip() in lets: arg = lets[arg.strip()]
         a = norm(arg)
         if name == 'wrap':
             dh = re.fullmatch(r'middleware::DefaultHeaders::new\(\)((?:\.add\(\("[^"]*","[^"]*"\)\))+)', re.sub(r'\s+(?=[^"]*(?:"[^"]*"[^"]*)*$)', '', arg))
             a = 'DefaultHeaders' if dh else a
         chain.append((name, a))
     scope = [('scope', m.group(1))] + chain
-    other = norm(cb[:m.start()]) + '|' + norm(cb[j:])
+    other = norm(head) + '|' + norm(cb[j:])
     scope.append(('around', other))
     ab = fn_block(mod, 'api_scope')
     services = [norm(a) for n, a in chain_calls(ab[ab.index('web::scope'):]) if n == 'service']
